@@ -395,6 +395,9 @@ func dischargeObligation(p *Prog, fn *ssa.Function, o obligation, opts *boundsOp
 			if boundedByInput(p, fi, o.instr, facts, t) {
 				continue
 			}
+			if sumOfLens(p, fi, sz) {
+				continue
+			}
 			if liftMake(p, fn, t, opts, depth) {
 				continue
 			}
@@ -795,4 +798,62 @@ func canonParamKey(fn *ssa.Function, key string) string {
 		}
 	}
 	return parts[0] + "|" + parts[1] + "|" + ops
+}
+
+// sumOfLens: v is the accumulator of a counted loop over an existing collection (bound: a len) that
+// starts at a constant and grows, per iteration, by a len()/cap() or a constant: a sum of lengths of
+// data that already exists, so an allocation of that size is bounded by memory already in use.
+func sumOfLens(p *Prog, fi *FnInfo, v ssa.Value) bool {
+	for {
+		if cv, ok := v.(*ssa.Convert); ok {
+			v = cv.X
+			continue
+		}
+		break
+	}
+	phi, ok := v.(*ssa.Phi)
+	if !ok {
+		return false
+	}
+	var loop *Loop
+	for _, l := range loopsOf(p, fi.Fn) {
+		if l.Header == phi.Block() && l.Idx != nil {
+			loop = l
+		}
+	}
+	if loop == nil {
+		return false
+	}
+	if b := stripConv(loop.Bound); b.K != TLen && b.K != TCap {
+		return false
+	}
+	for i, e := range phi.Edges {
+		pred := phi.Block().Preds[i]
+		if !loop.Blocks[pred] {
+			if _, isC := e.(*ssa.Const); !isC {
+				return false
+			}
+			continue
+		}
+		bo, isB := e.(*ssa.BinOp)
+		if !isB || bo.Op != token.ADD {
+			return false
+		}
+		var inc ssa.Value
+		switch {
+		case bo.X == ssa.Value(phi):
+			inc = bo.Y
+		case bo.Y == ssa.Value(phi):
+			inc = bo.X
+		default:
+			return false
+		}
+		it := stripConv(fi.T(inc))
+		if it.K != TLen && it.K != TCap {
+			if k, isK := intConst(it); !isK || k < 0 {
+				return false
+			}
+		}
+	}
+	return true
 }
